@@ -687,6 +687,15 @@ pub fn run_parse(args: &Args) {
             }
         }
     }
+    // TLC-generated records (Mode C): parsed as they are, judged on their own
+    if let Some(path) = args.get("sfen-file") {
+        for (i, t) in read_lines(path).iter().enumerate() {
+            if i % 32 == 0 {
+                sh.next_history();
+            }
+            parse_event(&mut sh, "generated", t, "", -1);
+        }
+    }
     // random strings
     for i in 0..args.num("random", 500) {
         if i % 32 == 0 {
